@@ -48,11 +48,11 @@ theorem takeMsg_none (buf : List (Nat × Nat)) (c : Nat) (h : ∀ x ∈ buf, x.1
   rw [this]
 
 theorem step_inv (cfg : Cfg) (hg : cfg.good = true) (s : St) (ev : Ev) (h : Inv s) : Inv (step cfg s ev) := by
-  have hg' : cfg.closesConn = true ∧ cfg.ownChan = true ∧ cfg.buffered = true ∧ cfg.nonBlocking = true ∧
-      cfg.syncDial = true := by
-    simp [Cfg.good] at hg; exact ⟨hg.1.1.1.1.1.1, hg.1.1.1.1.1.2, hg.1.1.1.1.2, hg.1.1.1.2, hg.1.2⟩
-  have hser : cfg.serial = true := by simp [Cfg.good] at hg; exact hg.2
-  obtain ⟨hc, ho, hb, hn, hsd⟩ := hg'
+  have hG := Cfg.good_unpack hg
+  have hser : cfg.serial = true := hG.serial
+  have hcb : cfg.connBound = true := hG.connBound
+  obtain ⟨hc, ho, hb, hn, hsd⟩ : cfg.closesConn = true ∧ cfg.ownChan = true ∧ cfg.buffered = true ∧ cfg.nonBlocking = true ∧
+      cfg.syncDial = true := ⟨hG.closesConn, hG.ownChan, hG.buffered, hG.nonBlocking, hG.syncDial⟩
   have hchan : ∀ k, chanOf cfg k = k := by intro k; simp [chanOf, ho]
   -- a request that waits, or that is returning, is not dialling
   have hdialCur : ∀ k, s.cur = some k → s.dialing = none := by
@@ -280,6 +280,15 @@ theorem step_inv (cfg : Cfg) (hg : cfg.good = true) (s : St) (ev : Ev) (h : Inv 
     cases hd : s.dialing with
     | none => simp only; exact h
     | some k => simp only [hsd, if_true]; exact h
+  | staleAnswer j =>
+    -- the registered handler was made for another connection: the message is ignored, only the bookkeeping of
+    -- closed connections changes
+    unfold step
+    by_cases hs : s.stale.contains j = true
+    · simp only [hs, Bool.not_true, Bool.false_eq_true, if_false, hcb, if_true]
+      exact ⟨h.notBlocked, h.notWedged, h.logOk, h.connsOwned, h.exclusive, h.curReg, h.bufOld, h.regOld, h.bufCur,
+        h.connsShort, h.lateNone, h.dialExcl⟩
+    · simp only [hs, Bool.not_false, if_true]; exact h
 
 theorem run_inv (cfg : Cfg) (hg : cfg.good = true) (evs : List Ev) : ∀ s, Inv s → Inv (run cfg s evs) := by
   induction evs with
@@ -306,7 +315,7 @@ theorem C19_next_request_starts (cfg : Cfg) (hg : cfg.good = true) (evs : List E
     (hidle : (run cfg {} evs).cur = none ∧ (run cfg {} evs).returning = none ∧ (run cfg {} evs).dialing = none) :
     (step cfg (run cfg {} evs) .start).cur = some (run cfg {} evs).next := by
   have h := reachable_inv cfg hg evs
-  have ho : cfg.ownChan = true := by simp [Cfg.good] at hg; exact hg.1.1.1.1.1.2
+  have ho : cfg.ownChan = true := (Cfg.good_unpack hg).ownChan
   unfold step
   simp only [h.notWedged, hidle.1, hidle.2.1, hidle.2.2, h.notBlocked, Option.isSome_none, Bool.or_self, Bool.false_eq_true,
     if_false, Nat.lt_irrefl, gt_iff_lt, Bool.and_false]
@@ -331,6 +340,36 @@ theorem C19_late_answer_discarded (cfg : Cfg) (hg : cfg.good = true) (evs : List
   unfold step
   simp [hc]
 
+/-! ### a message already read when its connection is closed
+
+  Closing a connection does not stop its reader task at once: a message the task had read by then is still handed to
+  the subscriber's state machine - which all connections of the subscriber share - and so to the handler registered
+  by the subscriber's NEXT request.  Reproduced on the real client functions with answers arriving within microseconds
+  of the 5 s timer (`peer sweep`).  The handler therefore has to know the connection it was registered for
+  (`connBound`, a regenerated source fact). -/
+
+/-- … with a handler bound to its connection such a message is ignored: nothing but the bookkeeping of closed
+    connections changes — in particular no request acts upon it (`log`), nothing is buffered, nobody blocks -/
+theorem C19_stale_answer_ignored (cfg : Cfg) (hg : cfg.good = true) (s : St) (j : Nat) :
+    (step cfg s (.staleAnswer j)).log = s.log ∧ (step cfg s (.staleAnswer j)).cur = s.cur ∧
+    (step cfg s (.staleAnswer j)).buf = s.buf ∧ (step cfg s (.staleAnswer j)).blocked = s.blocked ∧
+    (step cfg s (.staleAnswer j)).returning = s.returning := by
+  have hcb := (Cfg.good_unpack hg).connBound
+  unfold step
+  simp only [hcb, if_true]
+  split <;> simp
+
+/-- the binding is needed: with everything else as in the working tree, a request that timed out leaves a message
+    behind that the next request takes for its own answer -/
+def unbound : Cfg := { Chf.Gen.ratingClient with connBound := false }
+
+theorem C19_conn_binding_needed :
+    (run unbound {} [.start, .timeout, .ret, .start, .staleAnswer 1]).log.head? = some (.foreign 2 1) := by decide
+
+/-- … and with the binding the same schedule ends with the second request served by its own answer -/
+example : (run Chf.Gen.ratingClient {} [.start, .timeout, .ret, .start, .staleAnswer 1, .answer 2, .ret]).log
+    = [.own 2, .timeout 1] := by decide
+
 /-! ### slow connection set-up
 
   While a request's connection is being set up its handler is already registered, so an answer read on an *older*
@@ -352,7 +391,7 @@ theorem C19_answer_during_setup_discarded (cfg : Cfg) (hg : cfg.good = true) (ev
 
 /-- a synchronous dial cannot be given up: the event changes nothing -/
 theorem C19_sync_dial_waits (cfg : Cfg) (hg : cfg.good = true) (s : St) : step cfg s .dialGiveUp = s := by
-  have hsd : cfg.syncDial = true := by simp [Cfg.good] at hg; exact hg.1.2
+  have hsd : cfg.syncDial = true := (Cfg.good_unpack hg).syncDial
   unfold step
   cases s.dialing <;> simp [hsd]
 
@@ -361,7 +400,7 @@ theorem C19_setup_done (cfg : Cfg) (hg : cfg.good = true) (evs : List Ev) (k : N
     (hd : (run cfg {} evs).dialing = some k) :
     (step cfg (run cfg {} evs) (.dialDone k)).cur = some k ∧ (step cfg (run cfg {} evs) (.dialDone k)).conns = [k] := by
   have h := reachable_inv cfg hg evs
-  have ho : cfg.ownChan = true := by simp [Cfg.good] at hg; exact hg.1.1.1.1.1.2
+  have ho : cfg.ownChan = true := (Cfg.good_unpack hg).ownChan
   obtain ⟨_, _, e3, _, _, e6⟩ := h.dialExcl k hd
   have hdr : ∀ x ∈ (run cfg {} evs).buf, x.1 ≠ chanOf cfg k := by
     intro x hx; simp only [chanOf, ho, if_true]; exact e6 x hx
@@ -373,8 +412,8 @@ theorem C19_setup_done (cfg : Cfg) (hg : cfg.good = true) (evs : List Ev) (k : N
 
 /-! ### each fact is needed: the machines of the code before 396fba5 / 93b0ba8 -/
 
-def before : Cfg := ⟨false, false, false, false, 5000, true, true, 0, true⟩       -- shared unbuffered channel, connection never closed
-def closeOnly : Cfg := ⟨true, false, false, false, 5000, true, true, 0, true⟩    -- after 396fba5 only
+def before : Cfg := ⟨false, false, false, false, 5000, true, true, 0, true, true⟩       -- shared unbuffered channel, connection never closed
+def closeOnly : Cfg := ⟨true, false, false, false, 5000, true, true, 0, true, true⟩    -- after 396fba5 only
 
 /-- late answer, nobody waiting: the handler blocks and the next request is stuck for ever -/
 example : (run before {} [.start, .timeout, .ret, .answer 1, .start]).wedged = true := by decide
